@@ -142,8 +142,9 @@ class Checker(object):
             if not any(x is t[0] and g is t[1] and v is t[2] for t in F.list_of_points):
                 self.v("stationary_not_in_points", "stationary sample missing from list_of_points")
         # I4b: every sample whose gradient is zero is registered as a stationary point
+        # ("zero" exactly, as for 'the same point': 1.5 g + 2.5 (-0.6 g) = -2.2e-16 g is a gradient that is not null, Appendix B24)
         for (x, g, v) in F.list_of_points:
-            if not cpoint(g) and not any(x is t[0] and g is t[1] for t in F.list_of_stationary_points):
+            if not ppt(g) and not any(x is t[0] and g is t[1] for t in F.list_of_stationary_points):
                 self.v("zero_gradient_sample_not_registered_stationary:%s" % kind,
                        "a %s function holds a sample with zero gradient that is missing from list_of_stationary_points (after %s)" % (kind, after_call))
                 break
